@@ -1475,6 +1475,15 @@ def core_specs():
     c.append({"t": "C", "tree": N("add", N("tanh", L(0)), N("tanh", L(0))), "leaves": ["dF"]})
     c.append({"t": "C", "tree": N("add", N("tanh", L(0)), N("tanh", L(1))), "leaves": ["dF", "dF"]})
     c.append({"t": "C", "tree": N("concatenate", N("sum", L(0), v=0), N("sum", L(0), v=0)), "leaves": ["dF"]})
+    # ---- single functors: several attributes (same and different types), n-ary operand splits, attributes after curried operands
+    c.append({"t": "A", "f": "sum", "v": 2, "leaves": ["dF"]})
+    c.append({"t": "A", "f": "hardtanh", "v": 1, "leaves": ["dF"]})
+    c.append({"t": "A", "f": "moveaxis", "v": 0, "leaves": ["dF"]})
+    c.append({"t": "A", "f": "roll", "v": 0, "leaves": ["dF"]})
+    c.append({"t": "A", "f": "subtract", "v": 0, "leaves": ["dF", "dF"]})
+    c.append({"t": "A", "f": "concatenate", "v": 0, "leaves": ["dF", "dF"]})
+    c.append({"t": "A", "f": "where", "v": 0, "leaves": ["dF", "dF", "dF"]})
+    c.append({"t": "A", "f": "dig2", "v": 0, "leaves": ["dF", "dF", "dF"]})
     # ---- compositions
     c.append({"t": "B", "chain": [{"f": "tanh", "v": 0}, {"f": "add", "v": 0}], "leaves": ["dF", "dF"]})
     c.append({"t": "B", "chain": [{"f": "subtract", "v": 0}, {"f": "tanh", "v": 0}], "leaves": ["dF", "dF"]})
